@@ -185,6 +185,10 @@ def build_driver():
             return True, "driver up to date"
         shutil.rmtree(gen, ignore_errors=True)
         os.makedirs(gen)
+        # extraction needs every model file compiled (a check may have built only what its own property file needs)
+        okm, logm = build_coq_target(" ".join(f[:-2] + ".vo" for f in coqproject_files() if not f.startswith("properties/")))
+        if not okm:
+            return False, "model files do not compile:\n" + first_error(logm)
         rc, out = sh("timeout 600 coqc %s -o %s/Extract.vo %s" % (" ".join(qflags()), gen, ext), cwd=gen, timeout=700)
         if rc:
             return False, "extraction failed:\n" + out[-3000:]
